@@ -26,7 +26,7 @@ RULE = ("worlds of 3-5 interfaces, 2-3 classes, 3 instances (some directly provi
         "groups: for one key (registry, arity 0-3 objects or bare specifications, provided, name) EVERY entry point "
         "(lookup for 4 names, lookup1, queryAdapter, adapter_hook, queryMultiAdapter, lookupAll, names, subscriptions, "
         "subscribers, handlers, truthy and falsy non-string names (42, b'', 0, (), None, ...) on every path) in random order from the cold cache and again in another "
-        "random order from the warm cache; a case is non-trivial when some lookup in it found a factory; distinct = "
+        "random order from the warm cache; with probability 0.4 per round a DYNAMIC block: registrations that hit for one key, exactly one warm call through one entry point (each of the nine in turn), an in-place change of a class declaration the key depends on (classImplements / classImplementsFirst / classImplementsOnly on the class of the object, of a base class, of the class behind a super proxy), then every entry point for the same key; a case is non-trivial when some lookup in it found a factory; distinct = "
         "distinct (flavour, arities, first entry point of each group) signature")
 TRUSTED_BASE = ["the cache layer Model/Lookup.v (shared) and Model/CLookup.v are proved equal, on every run, to kernels regenerated "
                 "from adapter.py (LookupBase, AdapterLookupBase) and from the C functions _getcache/_lookup/_lookup1/"
@@ -39,6 +39,10 @@ TRUSTED_BASE = ["the cache layer Model/Lookup.v (shared) and Model/CLookup.v are
                 "validated by this correspondence and by the REG fidelity test"]
 ASSUMPTIONS = ["the uncached computations are deterministic functions of the registry state (no mutation during a lookup; "
                "re-entrancy is C11's subject)",
+               "in-place changes of required specifications are classImplements* on classes (directlyProvides/alsoProvides "
+               "replace the instance's declaration object, so no cache key survives them; interface __bases__ changes are "
+               "C02's subject); the tie models them as: every lookup object subscribed to a specification extending the "
+               "changed one drops caches and subscriptions (Tie/C08.invalidate)",
                "cache invalidation on mutation is C05's subject: C08's cache theorems are about all cache states reachable "
                "by entry-point calls since the last changed()"]
 
@@ -84,7 +88,9 @@ def _obj_specs(rel, world, j):
 
 
 def gen_ops(rng, world, ifaces, classes):
-    rel = RC.Rel(world)
+    import copy
+    wdyn = copy.deepcopy(world)          # the world as the in-place changes below leave it (for targeting only)
+    rel = RC.Rel(wdyn)
     nobj = len(world["objects"])
     fl = rng.choice(["push", "verifying"])
     n_regs = rng.choice([1, 2, 2, 3])
@@ -105,7 +111,7 @@ def gen_ops(rng, world, ifaces, classes):
             if rng.random() < 0.1:
                 out.append(None)
             else:
-                out.append(rng.choice(_obj_specs(rel, world, j)))
+                out.append(rng.choice(_obj_specs(rel, wdyn, j)))
         return out
 
     def mutation():
@@ -156,12 +162,14 @@ def gen_ops(rng, world, ifaces, classes):
             return ["setregbases", r, sorted(cand[: rng.choice([0, 1, 1, 2])], reverse=True)]
         return ["rebuild", r]
 
-    def group():
+    def group(forced=None):
         # the key
         r = rng.choice([n_regs - 1, n_regs - 1, rng.randrange(n_regs)])
         src = rng.random()
         objs, p, nm = None, None, None
-        if src < 0.55 and regs_seen:
+        if forced is not None:
+            r, objs, p, nm = forced
+        elif src < 0.55 and regs_seen:
             objs, _req, p0, nm = rng.choice(regs_seen)
             p = rng.choice([y for y in rel.ancestors(p0) if y in ifaces or y == 0])
         elif src < 0.8 and subs_seen:
@@ -172,11 +180,11 @@ def gen_ops(rng, world, ifaces, classes):
             objs = pick_objs(rng.choice([0, 1, 1, 1, 2, 2, 3]))
             p, nm = rng.choice(ifaces + [0]), rng.choice(NAMES)
         objs = list(objs)
-        if objs and rng.random() < 0.3:       # another object in one position (e.g. the super proxy of it)
+        if forced is None and objs and rng.random() < 0.3:       # another object in one position (e.g. the super proxy of it)
             objs[rng.randrange(len(objs))] = rng.randrange(nobj)
-        bare = rng.random() < 0.2             # bare specifications instead of objects
+        bare = forced is None and rng.random() < 0.2             # bare specifications instead of objects
         if bare:
-            req = [rng.choice([c for c in _obj_specs(rel, world, j) if c in classes or c in ifaces] or classes) for j in objs]
+            req = [rng.choice([c for c in _obj_specs(rel, wdyn, j) if c in classes or c in ifaces] or classes) for j in objs]
         else:
             req = [{"prov": j} for j in objs]
         calls = []
@@ -213,11 +221,59 @@ def gen_ops(rng, world, ifaces, classes):
         rng.shuffle(warm)
         return cold + warm
 
+    def dynamic_block():
+        """registrations that HIT for one key, ONE warm call through one entry point, an in-place change of a
+        class declaration the key's required specification depends on (the lookup object must have become a
+        dependent through that single call), then every entry point for the same key"""
+        nonlocal rel
+        objects = world["objects"]
+        ar = rng.choice([1, 1, 1, 2])
+        objs = pick_objs(ar)
+        j = objs[0]
+        base = objects[j].get("super_of", j)
+        cls = objects[base]["cls"]
+        cands = [c for c in [cls] + sorted(RC._cancestors(wdyn["specs"], cls)) if wdyn["specs"][c]["kind"] == "class"]
+        target = rng.choice(cands)
+        new = [i for i in ifaces if i not in rel.ancestors(target)]
+        if not new:
+            return []
+        iface = rng.choice(new)
+        r = rng.randrange(n_regs)
+        p, nm = rng.choice(ifaces), rng.choice(NAMES)
+        out = []
+        rest = [rng.choice(_obj_specs(rel, wdyn, k)) for k in objs[1:]]
+        hit = rng.choice([x for x in _obj_specs(rel, wdyn, j)])
+        out.append(["register", r, [hit] + rest, p, nm, RC.gen_value(rng)])
+        for _ in range(rng.choice([1, 1, 2])):
+            out.append(["register", rng.choice([r, rng.randrange(n_regs)]),
+                        [rng.choice(rel.ancestors(iface))] + rest, p, nm if rng.random() < 0.8 else rng.choice(NAMES),
+                        RC.gen_value(rng)])
+        if rng.random() < 0.5:
+            out.append(["subscribe", r, [rng.choice(rel.ancestors(iface))] + rest, rng.choice([p, None]), RC.gen_value(rng)])
+        for x in out:
+            if x[0] == "register":
+                regs_seen.append((objs, x[2], x[3], x[4]))
+        req = [{"prov": k} for k in objs]
+        pq = rng.choice([y for y in rel.ancestors(p) if y in ifaces or y == 0])
+        warm = [["lookup", r, req, pq, nm], ["queryMultiAdapter", r, objs, pq, nm], ["lookupAll", r, req, pq],
+                ["names", r, req, pq], ["subscriptions", r, req, pq], ["subscribers", r, objs, pq]]
+        if ar == 1:
+            warm += [["lookup1", r, req[0], pq, nm], ["queryAdapter", r, j, pq, nm], ["adapter_hook", r, j, pq, nm]] * 2
+        out.append(rng.choice(warm))
+        kind_ = rng.choice(["classImplements", "classImplements", "classImplementsFirst", "classImplementsOnly"])
+        out.append([kind_, target, iface])
+        sp = wdyn["specs"][target]
+        sp["implements"] = [iface] if kind_ == "classImplementsOnly" else list(sp["implements"]) + [iface]
+        rel = RC.Rel(wdyn)
+        return out + group(forced=(r, objs, pq, nm))
+
     for rnd in range(rng.choice([2, 3, 3, 4])):
         for _ in range(rng.choice([3, 5, 8]) if rnd == 0 else rng.choice([1, 1, 2, 3])):
             ops.append(mutation())
         for _ in range(rng.choice([1, 1, 2])):
             ops += group()
+        if rng.random() < 0.4:
+            ops += dynamic_block()
     return ops
 
 
